@@ -72,6 +72,12 @@ def cases(M):
     A = L @ L.T
     out.append(("DensePositiveDefinite", M.DensePositiveDefiniteMatrix(A), A, A, {"symmetric": True}))
     out.append(("DenseDefinite negative", M.DenseDefiniteMatrix(-1 * A, is_posdef=False), -1 * A, -1 * A, {"symmetric": True}))
+    # the library's convention matrix = factor @ factor.T for EITHER orientation of the factor: an upper factor supplied by the caller, and the upper
+    # inverse-triangular factor the library itself attaches to the inverse of a dense definite matrix (gradient requested before anything else)
+    Au = Lu @ Lu.T
+    out.append(("DensePositiveDefinite upper factor given", M.DensePositiveDefiniteMatrix(Au, factor=M.TriangularMatrix(Lu, lower=False)), Au, Au, {"symmetric": True}))
+    Ai = dense_inv(to_obj(A))
+    out.append(("DensePositiveDefinite inverse object", M.DensePositiveDefiniteMatrix(A).inv, Ai, Ai, {"symmetric": True}))
     R = mat("r", 1, 2)
     pd = posvec("w", 2)
     out.append(("DensePositiveDefiniteProduct identity inner", M.DensePositiveDefiniteProductMatrix(R), R @ R.T, R, {}))
@@ -112,7 +118,8 @@ def one_case(M, label, X, V, theta, struct, C):
             C.append((tag + f"/{kind}", core.UNKNOWN, "symla", time.time() - t0, f"undecided: {e}", None))
             return
         except Exception as e:  # noqa: BLE001
-            C.append((tag + f"/{kind}", core.FAILED, "symla", time.time() - t0, f"{type(e).__name__}: {e}", None))
+            from ..symla import is_artefact
+            C.append((tag + f"/{kind}", core.UNKNOWN if is_artefact(e) else core.FAILED, "symla", time.time() - t0, f"{type(e).__name__}: {e}", None))
             return
         shape_ok = g.shape == theta.shape
         C.append((tag + f"/{kind}-has-parameter-shape", core.DISCHARGED if shape_ok else core.FAILED, "symla", 0.0,
@@ -176,7 +183,8 @@ def softabs_repeated(M, C):
     except Undecided as e:
         C.append((tag + "/grad_quadratic_form_inv", core.UNKNOWN, "symla", time.time() - t0, f"undecided: {e}", None))
     except Exception as e:  # noqa: BLE001
-        C.append((tag + "/grad_quadratic_form_inv", core.FAILED, "symla", time.time() - t0, f"{type(e).__name__}: {e}", None))
+        from ..symla import is_artefact
+        C.append((tag + "/grad_quadratic_form_inv", core.UNKNOWN if is_artefact(e) else core.FAILED, "symla", time.time() - t0, f"{type(e).__name__}: {e}", None))
 
 
 def block_diagonal(M, C):
@@ -283,7 +291,8 @@ def dtype_independence(run_):
         run_.ob(f"matrices.{name}/results-independent-of-parameter-dtype", core.DISCHARGED if not diffs else core.FAILED, "native-exec", klass="bounded",
                 detail="" if not diffs else "; ".join(f"{k}: {v}" for k, v in diffs.items())[:600], witness=diffs or None,
                 replay=(lambda w: {"script": "c11_dtype.py", "args": ["check"], "timeout": 300}) if diffs else None,
-                text="bounded (one integer-valued instance per class): int64 and float64 parameter arrays of equal values give equal results")
+                text="bounded (one integer-valued instance per class): int64 and float64 parameter arrays of equal values give equal results; a reported gradient is not "
+                     "changed by later evaluations on the same object (no reused output buffer)")
     run_.bounded.append({"id": "C11/matrices.*/results-independent-of-parameter-dtype", "detail": "one integer-valued instance per differentiable class, native execution"})
 
 
